@@ -25,12 +25,11 @@ def specRun (ops : List Op) : List Entry := specRunFrom [] ops
 
 /-- premise of the chapter clauses for one operation, `es` being the surviving records before it:
 records carry exactly the chapters `C` (DESIGN §6), slice index lists are what `slice.indices`
-produces (distinct, in range), `pop` (which does not touch chapters) is used on chapter-less
-logbooks only. -/
+produces (distinct, in range).  Integer indices of `pop` / `del` may be anything (out of range:
+`IndexError`, nothing changes). -/
 def OpOk (C : List Name) (es : List Entry) : Op → Prop
   | .record e => EntryOk C e
   | .delSlice idx => idx.Nodup ∧ ∀ i ∈ idx, i < es.length
-  | .pop _ => C = []
   | _ => True
 
 def Valid (C : List Name) : List Entry → List Op → Prop
@@ -40,7 +39,7 @@ def Valid (C : List Name) : List Entry → List Op → Prop
 theorem Rep.congr {C : List Name} {lb lb' : LB} {es : List Entry} (h : Rep C lb es)
     (hr : lb'.rows = lb.rows) (hc : lb'.chapters = lb.chapters)
     (hb : lb'.buffindex ≤ lb'.rows.length) : Rep C lb' es := by
-  refine ⟨hr ▸ h.rows, ?_, hc ▸ h.keys, hc ▸ h.nodup, hb⟩
+  refine ⟨hr ▸ h.rows, ?_, hc ▸ h.keys, hc ▸ h.nodup, hb, hc ▸ h.flat⟩
   intro c hcC
   have := h.chapters c hcC
   simpa [chRows, hc] using this
@@ -63,13 +62,6 @@ theorem setLogHeader_state (f : Bool) (lb : LB) :
 
 theorem pickle_eq (lb : LB) : pickle lb = lb := by cases lb; rfl
 
-theorem chapters_nil_of_keys {C : List Name} {lb : LB} {es : List Entry} (h : Rep C lb es)
-    (hC : C = []) : lb.chapters = [] := by
-  subst hC
-  cases hch : lb.chapters with
-  | nil => rfl
-  | cons q qs => exact absurd (h.keys q.1 (by simp [hch])) (by simp)
-
 /-- one step of a history keeps the logbook the image of the surviving records -/
 theorem step_rep {C : List Name} {lb : LB} {es : List Entry} (h : Rep C lb es) (o : Op)
     (ho : OpOk C es o) : Rep C (step lb o).1 (specStep es o) := by
@@ -83,24 +75,15 @@ theorem step_rep {C : List Name} {lb : LB} {es : List Entry} (h : Rep C lb es) (
   | str => exact h
   | pop i =>
     simp only [step, specStep]
-    have hch := chapters_nil_of_keys h ho
     cases hp : pos? es.length i with
-    | none =>
-      rw [pop_out lb i (by rw [hlen]; exact hp) h.buff]; exact h
+    | none => rw [pop_out_deep i lb h.deep (by rw [hlen]; exact hp)]; exact h
     | some p =>
-      have hp' : pos? lb.rows.length i = some p := by rw [hlen]; exact hp
-      have hpl : p < lb.rows.length := pos?_lt hp'
-      rw [pop_in lb i p hp']
-      have hb := h.buff
-      refine ⟨by simp [h.rows, eraseIdx_map], ?_, ?_, ?_, ?_⟩
-      · intro c hc; rw [ho] at hc; simp at hc
-      · simp [hch]
-      · simp [hch]
-      · simp only [buffindex_mk, rows_mk, List.length_eraseIdx, hpl, if_true]; split <;> omega
+      have := (h.delIndex i p hp).1
+      rwa [delIndex_eq_pop] at this
   | delIndex i =>
     simp only [step, specStep]
     cases hp : pos? es.length i with
-    | none => rw [delIndex_out lb i (by rw [hlen]; exact hp) h.buff]; exact h
+    | none => rw [delIndex_out lb i h.deep (by rw [hlen]; exact hp)]; exact h
     | some p => exact (h.delIndex i p hp).1
   | delSlice idx => exact (h.delSlice idx ho.1 ho.2).1
   | pickle => simp only [step, specStep, pickle_eq]; exact h
@@ -141,72 +124,66 @@ theorem Inv.buff_le {lb : LB} {D : List Row} (h : Inv lb D) : lb.buffindex ≤ l
   obtain ⟨A, B, h1, h2, _⟩ := h
   rw [h1, h2, List.length_append]; omega
 
-theorem Inv.pop {lb : LB} {D : List Row} (h : Inv lb D) (i : Int) : Inv (Logbook.pop i lb).2 D := by
+/-- a row at an in-range position leaves, `buffindex` follows: the invariant is kept -/
+theorem Inv.erase {lb lb' : LB} {D : List Row} (h : Inv lb D) (p : Nat)
+    (hr : lb'.rows = lb.rows.eraseIdx p)
+    (hb : lb'.buffindex = if p < lb.buffindex then lb.buffindex - 1 else lb.buffindex) :
+    Inv lb' D := by
+  obtain ⟨A, B, h1, h2, h3, h4, h5, h6⟩ := h
+  by_cases hpa : p < A.length
+  · refine ⟨A.eraseIdx p, B, ?_, ?_, ?_, h4, ?_, h6⟩
+    · rw [hr, h1, List.eraseIdx_append_of_lt_length hpa]
+    · rw [hb, h2]; simp only [hpa, if_true, List.length_eraseIdx]
+    · rw [← List.eraseIdx_append_of_lt_length hpa]
+      exact List.Nodup.sublist (List.eraseIdx_sublist _ _) h3
+    · intro r hr'; exact h5 r (List.mem_of_mem_eraseIdx hr')
+  · have hpa' : A.length ≤ p := Nat.le_of_not_lt hpa
+    refine ⟨A, B.eraseIdx (p - A.length), ?_, ?_, ?_, h4, h5, ?_⟩
+    · rw [hr, h1, List.eraseIdx_append_of_length_le hpa']
+    · rw [hb, h2]; simp only [hpa, if_false]
+    · rw [← List.eraseIdx_append_of_length_le hpa']
+      exact List.Nodup.sublist (List.eraseIdx_sublist _ _) h3
+    · intro r hr'; exact h6 r (List.mem_of_mem_eraseIdx hr')
+
+/-- `pop` / `del [i]` on a deep-aligned logbook keep the stream invariant and add no row -/
+theorem Inv.pop {lb : LB} {D : List Row} (h : Inv lb D) (hd : DeepAligned lb) (i : Int) :
+    Inv (Logbook.pop i lb).2 D ∧ ∀ r ∈ (Logbook.pop i lb).2.rows, r ∈ lb.rows := by
   cases hp : pos? lb.rows.length i with
-  | none => rw [pop_out lb i hp h.buff_le]; exact h
+  | none => rw [pop_out_deep i lb hd hp]; exact ⟨h, fun r hr => hr⟩
   | some p =>
-    rw [pop_in lb i p hp]
-    obtain ⟨A, B, h1, h2, h3, h4, h5, h6⟩ := h
-    by_cases hpa : p < A.length
-    · refine ⟨A.eraseIdx p, B, ?_, ?_, ?_, h4, ?_, h6⟩
-      · simp only [rows_mk, h1, List.eraseIdx_append_of_lt_length hpa]
-      · simp only [buffindex_mk, h2, hpa, if_true, List.length_eraseIdx]
-      · rw [← List.eraseIdx_append_of_lt_length hpa]
-        exact List.Nodup.sublist (List.eraseIdx_sublist _ _) h3
-      · intro r hr; exact h5 r (List.mem_of_mem_eraseIdx hr)
-    · have hpa' : A.length ≤ p := Nat.le_of_not_lt hpa
-      refine ⟨A, B.eraseIdx (p - A.length), ?_, ?_, ?_, h4, h5, ?_⟩
-      · simp only [rows_mk, h1, List.eraseIdx_append_of_length_le hpa']
-      · simp only [buffindex_mk, h2, hpa, if_false]
-      · rw [← List.eraseIdx_append_of_length_le hpa']
-        exact List.Nodup.sublist (List.eraseIdx_sublist _ _) h3
-      · intro r hr; exact h6 r (List.mem_of_mem_eraseIdx hr)
+    rw [pop_deep i p lb hd hp]
+    exact ⟨h.erase p (eraseDeep_rows p lb) (eraseDeep_buffindex p lb),
+      fun r hr => List.mem_of_mem_eraseIdx (by simpa [eraseDeep_rows] using hr)⟩
 
-theorem Inv.delIndex {lb : LB} {D : List Row} (h : Inv lb D) (i : Int) :
-    Inv (Logbook.delIndex i lb).1 D := by
-  obtain ⟨h1, h2, _⟩ := delIndex_rows lb i
-  exact (h.pop i).congr h1 h2
+theorem Inv.delIndex {lb : LB} {D : List Row} (h : Inv lb D) (hd : DeepAligned lb) (i : Int) :
+    Inv (Logbook.delIndex i lb).1 D ∧ ∀ r ∈ (Logbook.delIndex i lb).1.rows, r ∈ lb.rows := by
+  rw [delIndex_eq_pop]; exact h.pop hd i
 
-theorem Inv.delEach (ds : List Nat) : ∀ {lb : LB} {D : List Row}, Inv lb D →
-    Inv (Logbook.delEach ds lb).1 D := by
+/-- the loop of a slice deletion on a represented logbook -/
+theorem Inv.delEach {C : List Name} (ds : List Nat) (hds : ds.Pairwise (· > ·)) :
+    ∀ {lb : LB} {es : List Entry} {D : List Row}, Rep C lb es → Inv lb D → (∀ i ∈ ds, i < es.length) →
+      Inv (Logbook.delEach ds lb).1 D ∧ ∀ r ∈ (Logbook.delEach ds lb).1.rows, r ∈ lb.rows := by
   induction ds with
-  | nil => intro lb D h; exact h
+  | nil => intro lb es D _ h _; exact ⟨h, fun r hr => hr⟩
   | cons i is ih =>
-    intro lb D h
-    have h1 := h.delIndex (i : Int)
-    simp only [Logbook.delEach]
-    rcases hx : Logbook.delIndex (i : Int) lb with ⟨lb', fl⟩
-    rw [hx] at h1
-    cases fl with
-    | true => exact h1
-    | false => exact ih h1
-
-/-- rows only ever leave through deletions -/
-theorem pop_rows_subset (lb : LB) (i : Int) : ∀ r ∈ (Logbook.pop i lb).2.rows, r ∈ lb.rows := by
-  cases lb with
-  | mk rows chs b hd lh =>
-    simp only [Logbook.pop]
-    split
-    · intro r hr; exact List.mem_of_mem_eraseIdx (by simpa using hr)
-    · intro r hr; simpa using hr
-
-theorem delIndex_rows_subset (lb : LB) (i : Int) :
-    ∀ r ∈ (Logbook.delIndex i lb).1.rows, r ∈ lb.rows := by
-  rw [(delIndex_rows lb i).1]; exact pop_rows_subset lb i
-
-theorem delEach_rows_subset (ds : List Nat) : ∀ (lb : LB),
-    ∀ r ∈ (Logbook.delEach ds lb).1.rows, r ∈ lb.rows := by
-  induction ds with
-  | nil => intro lb r hr; exact hr
-  | cons i is ih =>
-    intro lb r hr
-    simp only [Logbook.delEach] at hr
-    rcases hx : Logbook.delIndex (i : Int) lb with ⟨lb', fl⟩
-    have hs := delIndex_rows_subset lb (i : Int)
-    rw [hx] at hr hs
-    cases fl with
-    | true => exact hs r hr
-    | false => exact hs r (ih lb' r hr)
+    intro lb es D hrep h hr
+    rw [List.pairwise_cons] at hds
+    have hi : i < es.length := hr i (by simp)
+    have hp : pos? es.length (i : Int) = some i := by rw [pos?_nat]; simp [hi]
+    obtain ⟨g1, g2, _⟩ := hrep.delIndex (i : Int) i hp
+    obtain ⟨k1, k2⟩ := h.delIndex hrep.deep (i : Int)
+    have hrest : ∀ j ∈ is, j < (es.eraseIdx i).length := by
+      intro j hj
+      have := hds.1 j hj
+      simp [List.length_eraseIdx, hi]; omega
+    have hde : Logbook.delEach (i :: is) lb = Logbook.delEach is (Logbook.delIndex (i : Int) lb).1 := by
+      rcases hx : Logbook.delIndex (i : Int) lb with ⟨lb', fl⟩
+      rw [hx] at g2
+      simp only at g2; subst g2
+      simp [Logbook.delEach, hx]
+    rw [hde]
+    obtain ⟨m1, m2⟩ := ih hds.2 g1 k1 hrest
+    exact ⟨m1, fun r hr' => k2 r (m2 r hr')⟩
 
 /-- the rows recorded by a history (the scalar parts of the `record` operations) -/
 def recordedOf : List Op → List Row
@@ -219,19 +196,23 @@ theorem recordedOf_append (xs ys : List Op) : recordedOf (xs ++ ys) = recordedOf
   | nil => rfl
   | cons o os ih => cases o <;> simp [recordedOf, ih]
 
-/-- rows and `buffindex` after a step that is neither `record` nor `stream`: `Inv` is kept and no
-row appears -/
-theorem step_other {lb : LB} {D : List Row} (h : Inv lb D) (o : Op)
+/-- rows and `buffindex` after a valid step that is neither `record` nor `stream`: `Inv` is kept
+and no row appears -/
+theorem step_other {C : List Name} {lb : LB} {es : List Entry} {D : List Row} (hrep : Rep C lb es)
+    (h : Inv lb D) (o : Op) (ho : OpOk C es o)
     (h1 : ∀ e, o ≠ .record e) (h2 : o ≠ .stream) :
     Inv (step lb o).1 D ∧ ∀ r ∈ (step lb o).1.rows, r ∈ lb.rows := by
+  have hlen : lb.rows.length = es.length := by rw [hrep.rows, List.length_map]
   cases o with
   | record e => exact absurd rfl (h1 e)
   | stream => exact absurd rfl h2
   | select path names => exact ⟨h, fun r hr => hr⟩
   | str => exact ⟨h, fun r hr => hr⟩
-  | pop i => exact ⟨h.pop i, pop_rows_subset lb i⟩
-  | delIndex i => exact ⟨h.delIndex i, delIndex_rows_subset lb i⟩
-  | delSlice idx => exact ⟨Inv.delEach _ h, delEach_rows_subset _ lb⟩
+  | pop i => exact h.pop hrep.deep i
+  | delIndex i => exact h.delIndex hrep.deep i
+  | delSlice idx =>
+    exact Inv.delEach (C := C) (sortDesc idx) (sortDesc_strict idx ho.1) hrep h
+      (fun i hi => ho.2 i ((mem_sortDesc i idx).1 hi))
   | pickle => simp only [step, pickle_eq]; exact ⟨h, fun r hr => hr⟩
   | setHeader hd =>
     obtain ⟨e1, _, e3, _⟩ := setHeader_state hd lb
@@ -292,19 +273,21 @@ theorem Inv.record {lb : LB} {D : List Row} (h : Inv lb D) (e : Entry)
     · exact g6 r hr
     · simp at hr; subst hr; exact h2
 
-/-- Along any history whose recorded rows are pairwise different and new: the invariant is
+/-- Along any valid history whose recorded rows are pairwise different and new: the invariant is
 kept, and everything delivered is a row of the logbook or a recorded row. -/
-theorem stream_inv (ops : List Op) : ∀ (lb : LB) (D : List Row), Inv lb D →
+theorem stream_inv {C : List Name} (ops : List Op) : ∀ (lb : LB) (es : List Entry) (D : List Row),
+    Rep C lb es → Valid C es ops → Inv lb D →
     (recordedOf ops).Nodup → (∀ r ∈ recordedOf ops, r ∉ lb.rows ∧ r ∉ D) →
     Inv (runFrom lb ops) (D ++ (streamsFrom lb ops).flatMap (·.rows)) ∧
     (∀ r ∈ (streamsFrom lb ops).flatMap (·.rows), r ∈ lb.rows ∨ r ∈ recordedOf ops) ∧
     (∀ r ∈ (runFrom lb ops).rows, r ∈ lb.rows ∨ r ∈ recordedOf ops) := by
   induction ops with
   | nil =>
-    intro lb D h _ _
+    intro lb es D _ _ h _ _
     refine ⟨by simpa [streamsFrom, runFrom] using h, by simp [streamsFrom], fun r hr => Or.inl hr⟩
   | cons o os ih =>
-    intro lb D h hn hf
+    intro lb es D hrep hv h hn hf
+    have hrep' := step_rep hrep o hv.1
     by_cases hrec : ∃ e, o = .record e
     · obtain ⟨e, rfl⟩ := hrec
       simp only [recordedOf, List.nodup_cons] at hn
@@ -312,7 +295,7 @@ theorem stream_inv (ops : List Op) : ∀ (lb : LB) (D : List Row), Inv lb D →
       have hi := h.record e hfe.1 hfe.2
       have hrows : (Logbook.record e lb).rows = lb.rows ++ [e.scalars] := by
         simp [Logbook.record, recordAux_rows]
-      obtain ⟨a1, a2, a3⟩ := ih (Logbook.record e lb) D hi hn.2 (by
+      obtain ⟨a1, a2, a3⟩ := ih (Logbook.record e lb) _ D hrep' hv.2 hi hn.2 (by
         intro r hr
         have := hf r (by simp [recordedOf, hr])
         refine ⟨?_, this.2⟩
@@ -342,7 +325,7 @@ theorem stream_inv (ops : List Op) : ∀ (lb : LB) (D : List Row), Inv lb D →
       · subst hs
         obtain ⟨hi, hsub⟩ := h.stream
         obtain ⟨e1, _⟩ := stream_state lb
-        obtain ⟨a1, a2, a3⟩ := ih (Logbook.stream lb).2 (D ++ (Logbook.stream lb).1.rows) hi hn (by
+        obtain ⟨a1, a2, a3⟩ := ih (Logbook.stream lb).2 _ (D ++ (Logbook.stream lb).1.rows) hrep' hv.2 hi hn (by
           intro r hr
           have := hf r hr
           refine ⟨by rw [e1]; exact this.1, ?_⟩
@@ -365,8 +348,8 @@ theorem stream_inv (ops : List Op) : ∀ (lb : LB) (D : List Row), Inv lb D →
           rcases a3 r hr with h' | h'
           · exact Or.inl (e1 ▸ h')
           · exact Or.inr h'
-      · obtain ⟨hi, hsub⟩ := step_other h o hrec' hs
-        obtain ⟨a1, a2, a3⟩ := ih (step lb o).1 D hi hn (by
+      · obtain ⟨hi, hsub⟩ := step_other hrep h o hv.1 hrec' hs
+        obtain ⟨a1, a2, a3⟩ := ih (step lb o).1 _ D hrep' hv.2 hi hn (by
           intro r hr
           have := hf r hr
           exact ⟨fun hm => this.1 (hsub r hm), this.2⟩)
@@ -415,4 +398,13 @@ theorem streams_snoc_other (ops : List Op) (o : Op) (hs : o ≠ .stream) :
     streams (ops ++ [o]) = streams ops := by
   simp only [streams, streamsFrom_append, streamsFrom_other _ o [] hs, streamsFrom, List.append_nil]
 
+theorem valid_append {C : List Name} (xs ys : List Op) : ∀ (es : List Entry),
+    Valid C es (xs ++ ys) ↔ Valid C es xs ∧ Valid C (specRunFrom es xs) ys := by
+  induction xs with
+  | nil => intro es; simp [Valid, specRunFrom]
+  | cons o os ih =>
+    intro es
+    simp only [List.cons_append, Valid, ih, specRunFrom, List.foldl_cons, and_assoc]
+
 end C18L
+
